@@ -90,6 +90,8 @@ def run(ctx: core.Ctx):
     if not same:
         raise core.CheckerError("oracle mincost: axis-reduced and full local Clifford searches disagree")
     ctx.selfcheck["mincost_axis_vs_full_local_agree"] = True
+    from .. import prereq
+    prereq.pipeline_contracts(ctx)       # the delivered circuit IS the table circuit plus single-qubit gates for every input (glue terms, layer-search segments)
     t = time.time()
     results = core.pmap(config_job, docs.ADVERTISED, chunks=1)
     maxd = {}
